@@ -30,6 +30,17 @@ type sessConn struct {
 	SendDuring string `json:"send_during,omitempty"`
 	NDuring    int    `json:"n_during,omitempty"`
 	SendAfter  int    `json:"send_after,omitempty"`
+	// C04, stream-management retransmissions: an acknowledgement <a h=.../> is applied to the stanzas held for the
+	// session (those the earlier sends of the history left unacknowledged): AckDuring while this attempt runs (same
+	// trigger as SendDuring, after its sends; NoSendDuring: no sends, only these), AckAfter after connect() has returned
+	// (after the SendAfter sends). AckVia: "route" = xmpp.VerifRoute(router, client, SMAnswer{H}), what the go routine
+	// started by the receiver of the OLD connection does, possibly long after that connection is gone; anything
+	// else = the exported SendMissingStz on the queue taken from the session while it was up (what an application
+	// may call). Each must leave at least one stanza held (h below the number of stanzas sent on the session).
+	AckDuring    []int  `json:"ack_during,omitempty"`
+	AckAfter     []int  `json:"ack_after,omitempty"`
+	AckVia       string `json:"ack_via,omitempty"`
+	NoSendDuring bool   `json:"no_send_during,omitempty"`
 }
 
 // sendObs: what became of one application send: the error Send returned, and where the server saw the marker
@@ -37,6 +48,7 @@ type sessConn struct {
 type sendObs struct {
 	Err   error
 	Where string
+	NoErr bool // a retransmission triggered through the router: no error is reported to anybody
 }
 
 const sendMarker = "xvgate-"
@@ -248,6 +260,7 @@ type sessObs struct {
 	after   []sessSnap
 	tlsLogs []string
 	sends   [][]sendObs // per connection: the sends during the attempt, then those after it (C04)
+	resends [][]sendObs // per connection: the acknowledgements applied during the attempt, then those after it (C04)
 }
 type sessSnap struct {
 	has     bool
@@ -278,6 +291,9 @@ func runSessionRaw(in sessIn) (*sessObs, Sx) {
 		sc.HoldAfterClose = c.Hold
 		if c.SendDuring == "certfail" {
 			sc.LingerMs = 3000
+		}
+		if c.SendDuring != "" {
+			sc.IdleDropMs = 8000 // the runner cuts the connection itself when it has seen what it needs
 		}
 		scripts = append(scripts, sc)
 	}
@@ -333,6 +349,8 @@ func runSessionRaw(in sessIn) (*sessObs, Sx) {
 		return nil
 	})
 	ob := &sessObs{}
+	var heldMarkers []string         // C04: markers of the stanzas sent on the current stream-managed session (held: nobody acknowledges them)
+	var heldQueue *stanza.UnAckQueue // ... and the queue that holds them
 	var conns []Sx
 	srvIdx := 0
 	for _, c := range in.Conns {
@@ -346,8 +364,52 @@ func runSessionRaw(in sessIn) (*sessObs, Sx) {
 		}
 		done := make(chan error, 1)
 		go func() { done <- xmpp.VerifClientConnect(client) }()
-		var sends []sendObs
+		var sends, resends []sendObs
 		var markers []string
+		// retransmission: apply <a h/> to the held stanzas; did any of their markers show up at the server AGAIN, where?
+		countHeld := func() (clear, tls int) {
+			logs := srv.snapshot()
+			if srvIdx < len(logs) {
+				lg := logs[srvIdx]
+				outside := string(lg.ClearBy) + "\x00" + string(lg.RawBy)
+				for _, m := range heldMarkers {
+					clear += strings.Count(outside, m)
+					tls += strings.Count(string(lg.SecureBy), m)
+				}
+			}
+			return
+		}
+		applyAck := func(h int) {
+			c0, t0 := countHeld()
+			so := sendObs{}
+			if c.AckVia == "route" {
+				so.NoErr = true
+				xmpp.VerifRoute(router, client, stanza.SMAnswer{H: uint(h)})
+			} else if heldQueue != nil {
+				so.Err = xmpp.SendMissingStz(h, client, heldQueue)
+			} else {
+				so.Err = errors.New("no queue")
+			}
+			quiet := time.Now().Add(25 * time.Millisecond)
+			giveUp := quiet
+			if !so.NoErr && so.Err == nil {
+				giveUp = time.Now().Add(6 * time.Second) // written, says the library: it must show up somewhere
+			}
+			for {
+				c1, t1 := countHeld()
+				switch {
+				case c1 > c0:
+					so.Where = "clear"
+				case t1 > t0:
+					so.Where = "tls"
+				}
+				if so.Where != "" || time.Now().After(giveUp) {
+					break
+				}
+				time.Sleep(300 * time.Microsecond)
+			}
+			resends = append(resends, so)
+		}
 		appSend := func(tag string) {
 			m := fmt.Sprintf("%s%d-%s", sendMarker, len(conns), tag)
 			err := client.Send(stanza.Message{Attrs: stanza.Attrs{Id: m, To: "peer@" + srvDomain, Type: stanza.MessageTypeChat}, Body: m})
@@ -407,10 +469,16 @@ func runSessionRaw(in sessIn) (*sessObs, Sx) {
 			if n < 1 {
 				n = 1
 			}
+			if c.NoSendDuring {
+				n = 0
+			}
 			for j := 0; j < n; j++ {
 				appSend(fmt.Sprintf("d%d", j))
 			}
 			locate()
+			for _, h := range c.AckDuring {
+				applyAck(h)
+			}
 			srv.drop(srvIdx) // the attempt ends here: the peer goes away
 		}
 		var cerr error
@@ -425,7 +493,24 @@ func runSessionRaw(in sessIn) (*sessObs, Sx) {
 			}
 			locate()
 		}
+		if !c.NoDial {
+			if cerr == nil && client.Session != nil && client.Session.SMState.UnAckQueue != nil && client.Session.SMState.UnAckQueue != heldQueue {
+				// a new stream-managed session: what is sent on it from now on is held until acknowledged (never, here)
+				heldQueue, heldMarkers = client.Session.SMState.UnAckQueue, nil
+			}
+			if cerr == nil && client.Session != nil && client.Session.SMState.UnAckQueue == heldQueue && heldQueue != nil {
+				for j, so := range sends {
+					if so.Err == nil && strings.Contains(markers[j], "-a") {
+						heldMarkers = append(heldMarkers, markers[j])
+					}
+				}
+			}
+			for _, h := range c.AckAfter {
+				applyAck(h)
+			}
+		}
 		ob.sends = append(ob.sends, sends)
+		ob.resends = append(ob.resends, resends)
 		if c.NoDial {
 			ob.errs = append(ob.errs, cerr)
 			ob.elems = append(ob.elems, nil)
